@@ -28,6 +28,12 @@ func VerifC18(nThin, maxEvents int) {
 	vAssert(c.returned, "C02.lingers")
 	vAssert(w.routersLeft() == 0, "C18.routing-entry-left")
 	vAssert(vLiveGoroutines(gorumsPkg) == base, "C18.goroutine-left")
+	for _, nd := range w.nodes {
+		if nd.channel != nil && nd.channel.parentCtx != nil {
+			// at most the current stream's context is registered with the node's context
+			vAssert(vLiveChildren(nd.channel.parentCtx) <= 1, "C18.stream-context-kept-after-its-stream-was-replaced")
+		}
+	}
 	if c.err != nil && c.ctx.Err() != nil && !ckOneWay(kind) {
 		vReach("ended-by-context")
 	}
